@@ -18,7 +18,8 @@ META = {
     'text': 'Sanitizer-as-invariant over an input grammar: all 1- and 2-line configurations from an alphabet holding each option\'s edge values (empty, 1 byte, colons, short syslog names, '
             'numbers at and beyond every limit, unbalanced quotes, tags of 98..1000 bytes, literals at limit-1/limit/limit+1, long lines, BOM, binary) crossed with exec inputs '
             '(NULL argv, argv[0]==NULL, 5000-byte argument, empty path) and environments (normal, empty, environ==NULL); and every data source called with exactly-sized heap buffers of every size '
-            'from 257 to natural-length+3 and around 4K/64K/1M.',
+            'from 257 to natural-length+3 and around 4K/64K/1M.'
+            " Result buffers are pre-filled with non-NUL bytes (the terminator must be the data source's own); every source is called again in a failing process state (working directory removed, no stdin, empty environment) and with stdin on a terminal whose path is longer than the small buffers.",
     'note': 'Memory exhaustion and invalid pointers are outside the domain. Trusted: clang ASan/UBSan (exact heap buffer sizes make overflows byte-precise).',
 }
 
